@@ -574,7 +574,8 @@ def build_unit(spec, tier, workdir, repo_root=None, variant_defs=(), extra_defs=
         err += e
         cmds.append(c)
         if rc != 0:
-            raise Undecided('goto-instrument failed (rc=%s): %s' % (rc, (e + o)[-3000:]))
+            tag = 'Found CFG SCC (a loop without loop contract in a legacy-instrumented function): ' if 'Found CFG SCC' in (e + o) else ''
+            raise Undecided('%sgoto-instrument failed (rc=%s): %s' % (tag, rc, (e + o)[-3000:]))
     return dict(gb=gb1, cmds=cmds, inserted=inserted, linemap=linemap, entry=entry, instr_log=out + err,
                 build_s=w + w2)
 
@@ -613,7 +614,8 @@ def parse_cbmc_json(out):
 
 
 def bounded_refutation(spec, tier, repo_root, variant, extra_defs, res, workdir):
-    why = res['reason']
+    why = res['reason'][:300]
+    spec = dict(spec, instrument='dfcc')     # the legacy instrumentation cannot enforce a contract on a body with loops
     try:
         b = build_unit(spec, tier, workdir, repo_root, variant_defs=(variant[1] if variant else ()),
                        extra_defs=extra_defs, drop_loops=True)
@@ -673,7 +675,7 @@ def run_unit(spec, tier, repo_root=None, variant=None, keep=None, extra_defs=())
                            extra_defs=extra_defs)
         except Undecided as e:
             res['reason'] = str(e)
-            if 'overlay of' in str(e) and 'loop' in str(e) and spec['mode'] == 'proof' and spec['enforce']:
+            if (('overlay of' in str(e) and 'loop' in str(e)) or 'Found CFG SCC' in str(e)) and spec['mode'] == 'proof' and spec['enforce']:
                 # the code was restructured: the loop contracts no longer line up, so NO PROOF is possible (undecided).
                 # A refutation still is: enforce the function contract on the new code with loops unwound (bounded).
                 # Any FAILURE found that way is a real execution of the real code violating the contract.
